@@ -551,6 +551,22 @@ pub fn http_body_chunking() -> Value {
 		bodies.push(b);
 	}
 	let mut tried = 0u64;
+	// Content-Length exactly at / one above the limit of 1024 (the declared length must not change the answer unless it EXCEEDS the limit)
+	for n in [1023usize, 1024, 1025] {
+		let mut b = b"[".to_vec();
+		b.extend(std::iter::repeat(b' ').take(n - 2));
+		b.push(b']');
+		let with_cl = read_chunks(vec![b.clone()], Some(n));
+		let without = read_chunks(vec![b.clone()], None);
+		tried += 2;
+		let too_large = |r: &Result<(Vec<u8>, bool), String>| matches!(r, Err(e) if e.contains("too big"));
+		if n <= 1024 && (with_cl != without || with_cl.is_err()) || n > 1024 && !too_large(&with_cl) {
+			return json!({"probe":"http_body_chunking","disagrees":true,
+				"input": format!("body of exactly {n} bytes, limit 1024, with Content-Length: {n} vs without the header"),
+				"observed": format!("with header: {:?}; without: {:?}", with_cl.as_ref().map(|(b, s)| (b.len(), *s)), without.as_ref().map(|(b, s)| (b.len(), *s))),
+				"expected": if n <= 1024 { "the same successful outcome" } else { "rejected as too large when the header is present" }});
+		}
+	}
 	for body in &bodies {
 		let whole = read_chunks(vec![body.clone()], None);
 		let n = body.len();
@@ -852,5 +868,151 @@ pub fn ws_request_limit_paths() -> Value {
 			}
 		}
 		json!({"probe":"ws_request_limit_paths","disagrees":false,"inputs_tried":tried,"bound":"5 limit/payload combinations x {default server, low-level ws::connect}"})
+	})
+}
+
+/// C03 (schedules): a reply that overtakes the completion of the transport's send future is still routed to its call.
+pub fn client_reply_overtakes_send() -> Value {
+	for threads in [1usize, 4] {
+		let rt = tokio::runtime::Builder::new_multi_thread().worker_threads(threads).enable_all().build().unwrap();
+		let r = rt.block_on(async {
+			let c = mock::eager_echo_client(ClientBuilder::default().request_timeout(std::time::Duration::from_secs(3)));
+			let single = c.request::<String, _>("m", rpc_params![]).await;
+			if single.is_err() {
+				return Some(("a single call".to_string(), format!("{:?}", single.map_err(|e| e.to_string()))));
+			}
+			let mut b = BatchRequestBuilder::new();
+			b.insert("a", rpc_params![]).unwrap();
+			b.insert("b", rpc_params![]).unwrap();
+			let batch = c.batch_request::<String>(b).await;
+			match batch {
+				Ok(br) if br.num_successful_calls() == 2 => {}
+				other => return Some(("a batch of two calls".to_string(), format!("{:?}", other.map(|b| b.num_successful_calls()).map_err(|e| e.to_string())))),
+			}
+			let sub = c.subscribe::<String, _>("s", rpc_params![], "u").await;
+			if sub.is_err() {
+				return Some(("a subscribe call".to_string(), format!("{:?}", sub.map(|_| ()).map_err(|e| e.to_string()))));
+			}
+			None
+		});
+		if let Some((what, got)) = r {
+			return json!({"probe":"client_reply_overtakes_send","disagrees":true,
+				"input": format!("{what} over a transport whose send() future returns 40 ms AFTER the peer has already answered ({threads} worker thread(s))"),
+				"observed": got, "expected":"the call completes with its own answer"});
+		}
+	}
+	json!({"probe":"client_reply_overtakes_send","disagrees":false,"histories_tried":6})
+}
+
+// ------------------------------------------------------------------------------------------
+// C12 (HTTP client): a middleware layer that answers `batch` with a canned list of reply ids (relative to the batch start)
+mod http_mock {
+	use jsonrpsee_core::client::{Error, MiddlewareBatchResponse, MiddlewareMethodResponse, MiddlewareNotifResponse, RawResponseOwned};
+	use jsonrpsee_core::middleware::{Batch, BatchEntry, Notification, RpcServiceT};
+	use jsonrpsee_types::{Id, Request, Response, ResponsePayload};
+	use std::sync::{Arc, Mutex};
+
+	#[derive(Clone)]
+	pub struct Canned<S> {
+		pub inner: S,
+		pub rel_ids: Arc<Mutex<Vec<i64>>>,
+	}
+	fn raw(id: u64, text: String) -> RawResponseOwned {
+		let v = serde_json::value::to_raw_value(&text).unwrap();
+		let rp: Response<'static, Box<serde_json::value::RawValue>> = Response::new(ResponsePayload::success(v), Id::Number(id));
+		rp.into()
+	}
+	impl<S> RpcServiceT for Canned<S>
+	where
+		S: RpcServiceT<MethodResponse = Result<MiddlewareMethodResponse, Error>, BatchResponse = Result<MiddlewareBatchResponse, Error>, NotificationResponse = Result<MiddlewareNotifResponse, Error>> + Send + Sync + Clone + 'static,
+	{
+		type MethodResponse = Result<MiddlewareMethodResponse, Error>;
+		type BatchResponse = Result<MiddlewareBatchResponse, Error>;
+		type NotificationResponse = Result<MiddlewareNotifResponse, Error>;
+		fn call<'a>(&self, request: Request<'a>) -> impl Future<Output = Self::MethodResponse> + Send + 'a {
+			// warm-up calls are answered locally with their own id
+			let id = request.id.clone().into_owned();
+			async move {
+				let n = match id { Id::Number(n) => n, _ => 0 };
+				Ok(MiddlewareMethodResponse::response(raw(n, "warm".into())))
+			}
+		}
+		fn batch<'a>(&self, requests: Batch<'a>) -> impl Future<Output = Self::BatchResponse> + Send + 'a {
+			let rel = self.rel_ids.lock().unwrap().clone();
+			let mut start = None;
+			for e in requests.iter() {
+				if let Ok(BatchEntry::Call(r)) = e {
+					if let Id::Number(n) = r.id {
+						start = Some(start.map_or(n, |s: u64| s.min(n)));
+					}
+				}
+			}
+			async move {
+				let start = start.unwrap_or(0) as i64;
+				Ok(rel.iter().enumerate().map(|(pos, r)| raw((start + r) as u64, format!("id{}#pos{}", start + r, pos))).collect())
+			}
+		}
+		fn notification<'a>(&self, n: Notification<'a>) -> impl Future<Output = Self::NotificationResponse> + Send + 'a {
+			self.inner.notification(n)
+		}
+	}
+}
+
+/// C12 (HTTP client): every reply sequence of length 1..=3 over ids start-1..=start+3 for a batch of 3 (after a warm-up call).
+pub fn http_client_batch_positional() -> Value {
+	use jsonrpsee_http_client::HttpClientBuilder;
+	use jsonrpsee_core::middleware::RpcServiceBuilder;
+	let rel_ids = std::sync::Arc::new(std::sync::Mutex::new(Vec::<i64>::new()));
+	let rel2 = rel_ids.clone();
+	rt().block_on(async move {
+		let mw = RpcServiceBuilder::new().layer_fn(move |inner| http_mock::Canned { inner, rel_ids: rel2.clone() });
+		let client = HttpClientBuilder::default().set_rpc_middleware(mw).build("http://127.0.0.1:9").unwrap();
+		let _ = client.request::<String, _>("warm", rpc_params![]).await;
+		let n = 3usize;
+		let mut tried = 0u64;
+		for len in 1..=3usize {
+			for code in 0..5usize.pow(len as u32) {
+				let mut c = code;
+				let mut rel = Vec::new();
+				for _ in 0..len {
+					rel.push((c % 5) as i64 - 1);
+					c /= 5;
+				}
+				tried += 1;
+				*rel_ids.lock().unwrap() = rel.clone();
+				let mut b = BatchRequestBuilder::new();
+				for k in 0..n {
+					b.insert("m", rpc_params![k]).unwrap();
+				}
+				if let Ok(br) = client.batch_request::<String>(b).await {
+					let ok = br.num_successful_calls();
+					let failed = br.num_failed_calls();
+					let entries: Vec<Result<String, String>> = br.into_iter().map(|e| e.map_err(|e| e.message().to_string())).collect();
+					let mut bad = None;
+					if entries.len() != n {
+						bad = Some(format!("returned {} entries for a batch of {}", entries.len(), n));
+					}
+					for (i, e) in entries.iter().enumerate() {
+						if let Ok(v) = e {
+							// the value names the absolute id it was sent under: it must be (some start) + i, i.e. relative id i
+							let sent_rel: Vec<i64> = rel.iter().enumerate().filter(|(pos, _)| v.ends_with(&format!("#pos{}", pos))).map(|(_, r)| *r).collect();
+							if sent_rel.first() != Some(&(i as i64)) {
+								bad = Some(format!("entry {i} holds {v:?}, which was sent under relative id {:?}", sent_rel));
+							}
+						}
+					}
+					let n_ok = entries.iter().filter(|e| e.is_ok()).count();
+					if bad.is_none() && (ok != n_ok || failed != entries.len() - n_ok) {
+						bad = Some(format!("counts ({ok} ok, {failed} failed) do not match entries {entries:?}"));
+					}
+					if let Some(why) = bad {
+						return json!({"probe":"http_client_batch_positional","disagrees":true,
+							"input": format!("HTTP client, one earlier call, then a batch of {n}; reply ids relative to the batch start: {:?}", rel),
+							"observed": why, "expected":"the call fails, or exactly 3 entries with entry i filled only by the reply carrying id start+i"});
+					}
+				}
+			}
+		}
+		json!({"probe":"http_client_batch_positional","disagrees":false,"reply_sequences_tried":tried,"bound":"batch of 3 after a warm-up call; all reply sequences of length 1..3 over ids start-1..=start+3"})
 	})
 }
